@@ -785,7 +785,7 @@ class ScriptGen:
                 self.types[nme] = ("arr", n)
                 sc.state0[nme[7:]] = np.array([float(self.pick(FLT_CONSTS, "sae")) for _ in range(n)])
                 self.assignable.add(nme)
-            sc.t0 = self.pick([0, 0.5, 1, 0.0], "t0")
+            sc.t0 = self.pick([0, 0.5, 1, 0.0, -1, -0.5, -2.0], "t0")
             sc.dt0 = self.pick([1, 0.5, 0.25, 2], "dt0")
             self.types["<t>"] = "float"
             self.types["<dt>"] = "float"
